@@ -780,6 +780,28 @@ def is_trivial(spec):
 # ----------------------------------------------------------------------------
 # worker
 # ----------------------------------------------------------------------------
+ABORT_CAP = 12      # aborted cases per (job, build) after which the rest of the job skips that build
+
+
+def run_capped(exe, payloads):
+    """common.run_cases in batches.  Every aborted case costs a driver restart, so a tree on which a
+    sanitizer (or a crash) stops nearly every case would take hours; after ABORT_CAP aborts the
+    remaining cases of this job are not run in this build (counted, reported as inconclusive unless
+    the aborts themselves are violations)."""
+    results = []
+    aborts = 0
+    pos = 0
+    while pos < len(payloads) and aborts < ABORT_CAP:
+        batch = payloads[pos:pos + (500 if aborts == 0 else 16)]
+        res = common.run_cases(exe, batch)
+        results.extend(res)
+        if len(res) < len(batch):
+            break
+        pos += len(batch)
+        aborts += sum(1 for r in res if isinstance(r, Crash))
+    return results, (len(payloads) - pos if aborts >= ABORT_CAP else 0)
+
+
 def worker(job):
     idx, specs, builds, infos, sboxes, names, rnd = job
     part = common.new_part()
@@ -802,10 +824,13 @@ def worker(job):
         sel = [i for i in range(len(specs)) if (infos[b]["chacha"] or not is_ch[i])]
         if not sel:
             continue
-        res = common.run_cases(exe, [pl[i] for i in sel])
+        res, skipped = run_capped(exe, [pl[i] for i in sel])
         for i, r in zip(sel, res):
             results[i][b] = r
-        if len(res) < len(sel):
+        if skipped:
+            common.part_count(part, "cases_skipped_after_repeated_aborts", skipped)
+            common.part_count(part, "skipped_in_" + b, skipped)
+        elif len(res) < len(sel):
             part["inconclusive"].append("driver %s returned %d of %d observations" % (b, len(res), len(sel)))
     for i, s in enumerate(specs):
         evaluate(s, results[i], infos, sboxes, part, names)
@@ -917,6 +942,9 @@ def run(tier):
         "none occur on the unchanged tree) -- switch UBSAN_ALIGNMENT_GATES in verif/props/c08.py",
         "key_size is passed as 16/32 (bytes) or 128/256 (bits) for ChaCha and 32/256 for GOST, as the self tests do",
     ]
+    sk = report.extra.get("cases_skipped_after_repeated_aborts", 0)
+    if sk:
+        report.inconclusive.append("%d (case, build) executions skipped after repeated aborts in a build" % sk)
     # essential monitors: every build must have delivered observations of every kind it was given
     for b in builds:
         if report.extra.get("build_" + b, 0) == 0:
